@@ -51,9 +51,12 @@ SepEntries == {E(hello, <<54>>, <<unstable>>, << <<urgency, medium>>, <<binonly,
 \* change lines that hold the trailer's " -- " in the middle, or begin like a trailer after deeper indentation
 l8 == <<SP, SP, 42, SP, 112, 97, 115, 115, SP, HYPHEN, HYPHEN, 120, SP, HYPHEN, HYPHEN, SP, HYPHEN, HYPHEN, 104, 111, 115, 116>>   \* "  * pass --x -- --host"
 l9 == <<SP, SP, HYPHEN, HYPHEN, SP, 110, 111, 116, SP, 97, SP, 116, 114, 97, 105, 108, 101, 114>>                                  \* "  -- not a trailer"
+\* a change line that ends in a carriage return (the text is verbatim, whatever it ends in)
+l10 == <<SP, SP, 42, SP, 99, 114, CR>>                                                      \* "  * cr\r"
+CrEntries == {E(hello, <<56>>, <<unstable>>, << <<urgency, low>> >>, <<<<>>, l10, l1, <<>>>>, m1, D(1, 2, 1, 2006, 15, 4, 5, TRUE, 7, 0))}
 DashEntries == {E(hello, <<55>>, <<unstable>>, << <<urgency, low>> >>, <<<<>>, l8, l9, <<>>>>, m1, D(1, 2, 1, 2006, 15, 4, 5, TRUE, 7, 0))}
 ZoneEntries == {E(hello, <<49>>, <<unstable>>, << <<urgency, low>> >>, Body3, m1, D(1, 2, 1, 2006, 15, 4, 5, zn, zh, zm)) :
                    zn \in BOOLEAN, zh \in {0, 3, 9, 12}, zm \in {0, 30, 45}}
 ASSUME Emit(SetToSeq({Vec(es, lead, gap, final) : es \in Models, lead \in {0, 1}, gap \in {1, 2}, final \in BOOLEAN})
-            \o SetToSeq({Vec(<<e>>, 0, 1, TRUE) : e \in ZoneEntries \cup SepEntries \cup DashEntries} \cup {Vec(<<ZeroEpoch>>, 0, 1, TRUE)}))
+            \o SetToSeq({Vec(<<e>>, 0, 1, TRUE) : e \in ZoneEntries \cup SepEntries \cup DashEntries \cup CrEntries} \cup {Vec(<<ZeroEpoch>>, 0, 1, TRUE)}))
 =============================================================================
